@@ -411,4 +411,40 @@ Definition to_brepr (v : Z) : brepr :=
   if v <? B * B then BSmall v
   else BLarge (to_words w (Z.to_nat ((Z.log2 v) / w + 1)) v).
 
+(* ------------------------------------------------------------------ bits.rs: & | ^ on IBig *)
+
+(** Repr::sub_one().into_typed(): the subtraction itself belongs to C01 and is taken at value
+    level; the result is viewed as a typed magnitude again *)
+Definition sub_one_typed (r : brepr) : brepr := to_brepr (bvalue r - 1).
+
+(** ownership after one operand was replaced by a temporary (passed by value) *)
+Definition own_rhs_val (o : bown) : bown := match o with VV | VR => VV | RV | RR => RV end.
+Definition own_lhs_val (o : bown) : bown := match o with VV | RV => VV | VR | RR => VR end.
+
+(** impl_ibig_bitand / impl_ibig_bitor / impl_ibig_bitxor over the word-level kernels; the final
+    `!` (Not for IBig) is taken at value level *)
+Definition ibig_bitand_asis (o : bown) (s0 : sign) (r0 : brepr) (s1 : sign) (r1 : brepr) : Z :=
+  match s0, s1 with
+  | Positive, Positive => bvalue (repr_bitand o r0 r1)
+  | Positive, Negative => bvalue (repr_and_not r0 (sub_one_typed r1))
+  | Negative, Positive => bvalue (repr_and_not r1 (sub_one_typed r0))
+  | Negative, Negative => Z.lnot (bvalue (repr_bitor VV (sub_one_typed r0) (sub_one_typed r1)))
+  end.
+
+Definition ibig_bitor_asis (o : bown) (s0 : sign) (r0 : brepr) (s1 : sign) (r1 : brepr) : Z :=
+  match s0, s1 with
+  | Positive, Positive => bvalue (repr_bitor o r0 r1)
+  | Positive, Negative => Z.lnot (bvalue (repr_and_not (sub_one_typed r1) r0))
+  | Negative, Positive => Z.lnot (bvalue (repr_and_not (sub_one_typed r0) r1))
+  | Negative, Negative => Z.lnot (bvalue (repr_bitand VV (sub_one_typed r0) (sub_one_typed r1)))
+  end.
+
+Definition ibig_bitxor_asis (o : bown) (s0 : sign) (r0 : brepr) (s1 : sign) (r1 : brepr) : Z :=
+  match s0, s1 with
+  | Positive, Positive => bvalue (repr_bitxor o r0 r1)
+  | Positive, Negative => Z.lnot (bvalue (repr_bitxor (own_rhs_val o) r0 (sub_one_typed r1)))
+  | Negative, Positive => Z.lnot (bvalue (repr_bitxor (own_lhs_val o) (sub_one_typed r0) r1))
+  | Negative, Negative => bvalue (repr_bitxor VV (sub_one_typed r0) (sub_one_typed r1))
+  end.
+
 End BitsKernels.
